@@ -1,10 +1,163 @@
-(* C13 — placeholder while the floor is built; theorems follow. *)
+(* C13 — Time-range membership follows the documented interval semantics.
+   Property theorems only; each is closed by [exact <lemma>] and followed by Print Assumptions.
+   SPEC ([spec_run], [describe], [nondecr], [origins_agree], [fields_ok]) and MODEL ([init], [accepted] = verdicts of
+   is_in_range over an op sequence, [restart], [make_absolute], [intersect], [parse]) are in Models/TimeRangeM.v.
+   Times are integers on a grid (1/8 s in the harness); see the binary64 caveat in manifest.d/C13.json. *)
 From Coq Require Import ZArith List Bool.
-From FEC Require Import Models.TimeRangeM.
+From FEC Require Import Generated.TimeRangeConsts Models.TimeRangeM Proofs.TimeRangeP.
 Import ListNotations.
 Open Scope Z_scope.
-Example C13_docstring_example :
-  accepted (init (mkargs (AFloat (Fin 8)) (AFloat (Fin 24)) (Some false) None))
-    [Msg Untimed; Msg (Timed 8); Msg Untimed; Msg (Timed 16); Msg Untimed; Msg (Timed 24); Msg Untimed; Msg (Timed 32); Msg Untimed]
-  = [false; false; false; true; true; true; true; false; false].
+
+(* Applied in order to ANY sequence of messages and restart() calls whose P1 times do not decrease within a
+   pass, the verdicts of is_in_range() on a freshly constructed range are exactly the documented ones: a
+   P1-timed message is accepted iff its (relative) time lies in [start, end); an untimed message is accepted
+   iff no P1 time at or beyond the end has been seen in this pass and (the start is open or some message of
+   this pass has been accepted). No bound on the length of the sequence. *)
+Theorem C13_in_range_matches_spec : forall (a : args) (ops : list op),
+  nondecr None ops = true -> accepted (init a) ops = spec_run (describe a) ops.
+Proof. exact in_range_matches_spec_proof. Qed.
+Print Assumptions C13_in_range_matches_spec.
+
+(* ... where the interval [describe a] is the literal [start, end) as far as P1 times (>= 0 when absolute) are
+   concerned: dropping an absolute start of 0 and an end of +inf does not change membership; and the start
+   counts as open exactly when it was omitted (None / NaN Timestamp) or is the absolute time 0. *)
+Theorem C13_describe_is_interval : forall (a : args),
+  (forall c, (describe_abs a = true -> 0 <= c) -> in_iv (describe a) c = in_iv (describe_raw a) c) /\
+  (is_none (lo (describe a)) = true <->
+   bound (a_start a) = None \/ (describe_abs a = true /\ bound (a_start a) = Some (Fin 0))).
+Proof. exact describe_is_interval_proof. Qed.
+Print Assumptions C13_describe_is_interval.
+
+(* the same for every fresh range however obtained (parsed, made absolute, intersected, restarted) *)
+Theorem C13_fresh_range_matches_spec : forall (r : tr) (ops : list op),
+  fresh r -> nondecr None ops = true ->
+  accepted r ops = spec_run (mkiv (start r) (stop r) (absolute r) (t0 r)) ops.
+Proof. exact fresh_range_matches_spec_proof. Qed.
+Print Assumptions C13_fresh_range_matches_spec.
+
+(* restart() after any history clears both latches and leaves exactly the range one would construct with
+   the t0 established so far; the verdicts after it are those of that fresh range. *)
+Theorem C13_restart_resets : forall (a : args) (ops1 ops2 : list op),
+  let r1 := snd (run (init a) ops1) in
+  started (restart r1) = false /\ ended (restart r1) = false /\
+  restart r1 = init (mkargs (a_start a) (a_end a) (a_abs a) (t0 r1)) /\
+  accepted r1 (Restart :: ops2) = accepted (init (mkargs (a_start a) (a_end a) (a_abs a) (t0 r1))) ops2.
+Proof. exact restart_resets_proof. Qed.
+Print Assumptions C13_restart_resets.
+
+(* t0 after any history: the supplied one, else the first P1 time ever seen (restart() does not forget it);
+   a range without any bound never looks at P1 time and keeps what it was given. *)
+Theorem C13_t0_first_timed : forall (a : args) (ops : list op),
+  t0 (snd (run (init a) ops)) =
+  if specified (init a) then match a_t0 a with Some z => Some z | None => first_timed ops end else a_t0 a.
+Proof. exact t0_first_timed_proof. Qed.
+Print Assumptions C13_t0_first_timed.
+
+(* Every text of the documented form [START][:END][:{rel,abs}] parses, to the range whose accepted set is
+   the interval the text describes (empty or negative field = open end; kind from the text, else from the
+   argument, else relative). *)
+Theorem C13_parse_spec : forall (sh : shape) (absarg : option bool) (vs ve : option ext) (ops : list op),
+  fields_ok sh vs ve -> nondecr None ops = true ->
+  exists r, parse (render sh) absarg = POk r /\
+            accepted r ops = spec_run (describe (describe_text sh absarg vs ve)) ops.
+Proof. exact parse_spec_proof. Qed.
+Print Assumptions C13_parse_spec.
+
+(* ... and nothing else is accepted: a text that parses is of that form (with supported numerals). *)
+Theorem C13_parse_only_documented : forall (s : list Z) (absarg : option bool) (r : tr),
+  parse s absarg = POk r ->
+  exists sh vs ve, s = render sh /\ fields_ok sh vs ve /\ r = init (describe_text sh absarg vs ve).
+Proof. exact parse_sound_proof. Qed.
+Print Assumptions C13_parse_only_documented.
+
+(* intersect(): on every sequence the verdicts of the result are the pointwise conjunction of the verdicts
+   of the two operands (= membership in the intersection of the accepted sets), provided both measure
+   relative time from one origin on that sequence ([origins_agree]); the result is again a fresh range, so
+   the statement chains. *)
+Theorem C13_intersect_spec : forall (A B I : tr) (ops : list op),
+  fresh A -> fresh B -> intersect A B = Ok I ->
+  nondecr None ops = true -> origins_agree A B ops = true ->
+  fresh I /\ accepted I ops = and_lists (accepted A ops) (accepted B ops).
+Proof. exact intersect_spec_proof. Qed.
+Print Assumptions C13_intersect_spec.
+
+(* ... and it refuses (ValueError) exactly the mixed absolute/relative pairs for which no t0 is known. *)
+Theorem C13_intersect_raises : forall (A B : tr),
+  intersect A B = ValueError <-> (absolute A <> absolute B /\ t0 A = None /\ t0 B = None).
+Proof. exact intersect_raises_iff. Qed.
+Print Assumptions C13_intersect_raises.
+
+(* make_absolute(): the result is absolute, accepts the same messages, and a second call changes nothing. *)
+Theorem C13_make_absolute_preserves : forall (r : tr) (arg : option Z) (r' : tr) (ops : list op),
+  fresh r -> make_absolute r arg = Ok r' -> nondecr None ops = true ->
+  (absolute r = true \/ t0 r <> None \/ forall f, first_timed ops = Some f -> arg = Some f) ->
+  fresh r' /\ absolute r' = true /\ accepted r' ops = accepted r ops.
+Proof. exact make_absolute_preserves_proof. Qed.
+Print Assumptions C13_make_absolute_preserves.
+
+Theorem C13_make_absolute_idempotent : forall (r : tr) (arg arg' : option Z) (r' : tr),
+  absolute r = false -> make_absolute r arg = Ok r' -> make_absolute r' arg' = Ok r'.
+Proof. exact make_absolute_idempotent_proof. Qed.
+Print Assumptions C13_make_absolute_idempotent.
+
+(* ---- non-vacuity: concrete non-trivial instances meet the hypotheses ------------------------------- *)
+(* the docstring example (relative [1,3) s; events before / inside / after), with a restart and a second pass *)
+Example C13_nonvacuous_sequence :
+  let a := mkargs (AFloat (Fin 8)) (AFloat (Fin 24)) (Some false) None in
+  let pass := [Msg Untimed; Msg (Timed 8); Msg Untimed; Msg (Timed 16); Msg Untimed; Msg (Timed 24); Msg Untimed;
+               Msg (Timed 32); Msg Untimed] in
+  nondecr None (pass ++ Restart :: pass) = true /\
+  accepted (init a) (pass ++ Restart :: pass) =
+    [false; false; false; true; true; true; true; false; false] ++ [false; false; false; true; true; true; true; false; false] /\
+  t0 (snd (run (init a) pass)) = Some 8.
+Proof. repeat split; reflexivity. Qed.
+
+(* "2.5:-1:abs" : fields are separator-free, 2.5 s = 20 grid steps, negative end = open *)
+Example C13_nonvacuous_parse :
+  let sh := S3 [50; 46; 53] [45; 49] true in
+  fields_ok sh (Some (Fin 20)) None /\
+  render sh = [50; 46; 53; 58; 45; 49; 58; 97; 98; 115] /\
+  parse (render sh) None = POk (init (mkargs (AFloat (Fin 20)) ANone (Some true) None)).
+Proof.
+  cbn zeta. split; [|split; reflexivity].
+  repeat split; try reflexivity.
+  - right. split; [discriminate|]. exists (Fin 20). split; reflexivity.
+  - right. split; [discriminate|]. exists (Fin (-8)). split; reflexivity.
+Qed.
+
+(* relative [1,3) s without t0, intersected with absolute [0,12.5) s that knows t0 = 10 s, on a sequence that
+   does start at 10 s: hypotheses hold, the result is the absolute range [11, 12.5) s *)
+Example C13_nonvacuous_intersect :
+  let A := init (mkargs (AFloat (Fin 8)) (AFloat (Fin 24)) (Some false) None) in
+  let B := init (mkargs (AFloat (Fin 0)) (AFloat (Fin 100)) (Some true) (Some 80)) in
+  let ops := [Msg (Timed 80); Msg (Timed 88); Msg Untimed; Msg (Timed 96); Msg (Timed 100); Msg (Timed 104)] in
+  fresh A /\ fresh B /\ nondecr None ops = true /\ origins_agree A B ops = true /\
+  exists I, intersect A B = Ok I /\ start I = Some (Fin 88) /\ stop I = Some (Fin 100) /\ absolute I = true /\
+            accepted I ops = [false; true; true; true; false; false].
+Proof. cbn zeta. repeat split; try reflexivity. eexists. repeat split; reflexivity. Qed.
+
+Example C13_nonvacuous_raises :
+  intersect (init (mkargs (AFloat (Fin 8)) ANone (Some true) None)) (init (mkargs (AFloat (Fin 8)) ANone (Some false) None)) = ValueError.
 Proof. reflexivity. Qed.
+
+(* ---- what the code did before the three repairs (the findings; replayed in corpus/C13) ---------------- *)
+Theorem C13_legacy_refuted :
+  (* c8dd2e2: open start, end 2 s: Pose@3 s, then an event was accepted *)
+  (let a := mkargs ANone (AFloat (Fin 16)) (Some true) None in
+   let ops := [Msg (Timed 24); Msg Untimed] in
+   accepted_legacy (init_gen legacy a) ops = [false; true] /\ spec_run (describe a) ops = [false; false] /\
+   accepted (init a) ops = [false; false]) /\
+  (* 66f7bca: make_absolute left the range marked relative *)
+  (let A := mkargs (AFloat (Fin 8)) (AFloat (Fin 24)) (Some false) (Some 80) in
+   let B := mkargs (AFloat (Fin 0)) (AFloat (Fin 100)) (Some true) None in
+   let ops := [Msg (Timed 80); Msg (Timed 88); Msg Untimed; Msg (Timed 96); Msg (Timed 100); Msg (Timed 104)] in
+   (exists I, intersect_gen legacy (init_gen legacy A) (init_gen legacy B) = Ok I /\
+              accepted_legacy I ops = [false; false; false; false; false; false]) /\
+   and_lists (spec_run (describe A) ops) (spec_run (describe B) ops) = [false; true; true; true; false; false] /\
+   (exists I, intersect (init A) (init B) = Ok I /\ accepted I ops = [false; true; true; true; false; false])) /\
+  (* d6e4319: end = -inf read as "no end" *)
+  (let a := mkargs (AFloat (Fin 8)) (AFloat NInf) (Some true) None in
+   let ops := [Msg (Timed 8)] in
+   accepted_legacy (init_gen legacy a) ops = [true] /\ spec_run (describe a) ops = [false] /\ accepted (init a) ops = [false]).
+Proof. exact legacy_refuted_proof. Qed.
+Print Assumptions C13_legacy_refuted.
